@@ -35,7 +35,7 @@ func actionMenu(witness *spec) func(h *H, c call) []answer {
 
 func genC18(tier string) []Scenario {
 	var out []Scenario
-	kinds := []int{kBase, kBaseFb, kBare, kBareRetry, kBareFb, kFuncR, kFuncA, kFuncRB, kFuncAB, kFuncMix}
+	kinds := []int{kBase, kBaseFb, kBare, kBareRetry, kBareFb, kFuncR, kFuncA, kFuncRB, kFuncAB, kFuncMix, kBaseZero}
 	for _, k := range kinds {
 		for _, wrapInFlow := range []bool{false, true} { // KF: the node is the only node of an inner flow used as a node
 			n := &spec{id: "n", kind: k, n: 1, fb: kindIsFunc(k)}
